@@ -256,10 +256,16 @@ def check(run):
     # the hand-out is reached whenever a handler is pending and the queue is non-empty (and the acceptor is open)
     pops = [c for c in caq.calls() if (c.get('callee') or '').endswith('::erase') and q.render(caq, c.get('obj')) == 'm_incoming_conns']
     okc = bool(pops)
+    extra = []
     for c in pops:
-        g = [(q.render(caq, a), p) for a, p in q.guards_at(caq, c)]
-        allowed = {('m_accept_handler', True), ('m_accept_handler2', True), ('m_accept_handler', False), ('m_accept_handler2', False), ('m_incoming_conns.empty()', False)}
-        extra = [x for x in g if x not in allowed and not x[0].startswith('(!m_accept_handler')]
+        # evaluated in the two abstract states "an accept of either form is pending, a connection is queued": every guard on
+        # the way to the hand-out must hold there (Kleene evaluation of whatever way the tests are combined or named)
+        for h1, h2 in ((True, False), (False, True)):
+            leaf = lambda n_: {'m_accept_handler': h1, 'm_accept_handler2': h2, 'm_incoming_conns.empty()': False, 'm_incoming_conns.size()': True}.get(q.render(caq, n_)) if q.strip_casts(n_)['k'] not in ('un', 'bin') else None
+            for a, p_ in q.guards_at(caq, c):
+                v = q.eval3(a, leaf)
+                if v is None or v != p_:
+                    extra.append((q.render(caq, a), p_))
         if extra:
             okc = False
     run.check(okc, 'R10', 'accept-queue-dispatch', A + '::check_accept_queue', caq.loc(), 'the queued connection is handed out only under extra conditions: ' + str(extra if not okc and pops else ''),
@@ -281,10 +287,12 @@ def check(run):
     mp = [a for a in q.field_accesses(sp, {T + '::m_outstanding_packet_sizes'}) if a.partial or a.kind in ('assign', 'method')]
     same = False
     if add:
-        r1 = q.render(sp, q.strip_casts(add[0].site['rhs']))
+        csp = q.const_local_subst(sp)       # the measure may be named once as a const local
+        MEAS = ({'p.buffer.size()': 1}, 0)
+        l1 = q.linform(sp, add[0].site['rhs'], csp)
         for n in sp.all_nodes():
             if n['k'] == 'bin' and n['op'] == '=' and 'm_outstanding_packet_sizes[p.seq_nr]' in q.render(sp, n['lhs']):
-                same = q.render(sp, q.strip_casts(n['rhs'])) == r1 and 'p.buffer.size()' in r1
+                same = l1 == MEAS and q.linform(sp, n['rhs'], csp) == MEAS
     run.check(bool(add) and same, 'R9', 'flight-begin', T + '::send_packet', sp.loc(), 'send_packet does not add p.buffer.size() to m_bytes_in_flight and record the same size under p.seq_nr', 'adds and records the same measure int(p.buffer.size())')
     # ACK branch: subtracts the recorded size of the acked seq and erases it
     okack = False
